@@ -33,6 +33,15 @@ func initIterable() {
 	IterableInterface.AddConstantString("Base", Ref(IterableBaseMixin))
 	RegisterNativeMixin("Std::Iterable::Base", "value.IterableBaseMixin")
 
+	// `Iterator::Base` includes `Iterable::Base` (headers/iterator.elh).
+	// Classes that are created before these mixins exist get them here.
+	IteratorBaseMixin.IncludeMixin(IterableBaseMixin)
+	GeneratorClass.IncludeMixin(IteratorBaseMixin)
+	IntIteratorClass.IncludeMixin(IteratorBaseMixin)
+	StringCharIteratorClass.IncludeMixin(IteratorBaseMixin)
+	StringByteIteratorClass.IncludeMixin(IteratorBaseMixin)
+	StringGraphemeIteratorClass.IncludeMixin(IteratorBaseMixin)
+
 	IterableNotFoundErrorClass = NewClassWithOptions(ClassWithSuperclass(ErrorClass))
 	IterableInterface.AddConstantString("NotFoundError", Ref(IterableNotFoundErrorClass))
 	RegisterNativeClass("Std::Iterable::NotFoundError", "value.IterableNotFoundErrorClass")
